@@ -2773,7 +2773,11 @@ class Parameters:
         finally:
             self_._TRIGGER = False
             self_._events += events
-            self_._state_watchers += watchers
+            # A watcher queued both before and by the trigger must run once
+            self_._state_watchers += [
+                w for w in watchers
+                if not any(w is queued for queued in self_._state_watchers)
+            ]
 
     def _update_event_type(self_, watcher, event, triggered):
         """Return an updated Event object with the type field set appropriately."""
